@@ -5,8 +5,11 @@ package main_test
 import (
 	"encoding/json"
 	"fmt"
+	"github.com/Azbesciak/RealDecisionMaker/lib/model"
 	"os"
 	"path/filepath"
+	"reflect"
+	"sort"
 	"strings"
 	"sync"
 	"testing"
@@ -67,6 +70,16 @@ func judgeHTTP(c C20Case, resp HTTPResp) *Fail {
 		es := strings.TrimSpace(string(e))
 		if !hasE || !hasR || es == "" || es == "null" || es == `""` {
 			return failf("400-has-error-and-request", "status 400 without a non-empty `error` and an echoed `request`: %s", resp.Body)
+		}
+		if c.Kind == "valid" || c.Kind == "constraint" {
+			// "the echoed request": what the service decoded from the body, as it was before deciding
+			var sent model.DecisionMaker
+			if json.Unmarshal([]byte(c.Body), &sent) == nil {
+				if want := mustJSON(sent); !jsonEqual(want, obj["request"]) {
+					return failf("400-echoes-the-request", "the echoed request is not the request that was sent:\n sent   %s\n echoed %s", want, obj["request"])
+				}
+				st.inc("C20:echo-compared")
+			}
 		}
 		if c.Kind == "valid" && !(strings.Contains(es, "unsupported value") && overflowExcused([]byte(c.Body))) {
 			return failf("valid-request-answered-200", "a valid request is rejected: %s", es)
@@ -371,8 +384,57 @@ func judgeFunctions(resp HTTPResp) *Fail {
 		if raw, ok := obj[n]; !ok || json.Unmarshal(raw, &schema) != nil || schema == nil {
 			return failf("functions-schema-per-method", "no parameter schema object for method %q", n)
 		}
+		// the schema is self-contained: every local reference resolves inside it
+		var defs map[string]json.RawMessage
+		_ = json.Unmarshal(schema["definitions"], &defs)
+		for _, ref := range localRefs(obj[n]) {
+			name := strings.TrimPrefix(ref, "#/definitions/")
+			if name == ref {
+				continue
+			}
+			if _, ok := defs[name]; !ok {
+				return failf("functions-schema-per-method", "the schema of %q refers to %s, which it does not define", n, ref)
+			}
+		}
 	}
 	return nil
+}
+
+// jsonEqual compares two JSON texts as values (key order and number formatting do not matter).
+func jsonEqual(a, b []byte) bool {
+	var x, y interface{}
+	if json.Unmarshal(a, &x) != nil || json.Unmarshal(b, &y) != nil {
+		return false
+	}
+	return reflect.DeepEqual(x, y)
+}
+
+// localRefs lists the "$ref" strings anywhere inside a JSON value.
+func localRefs(raw json.RawMessage) []string {
+	var v interface{}
+	if json.Unmarshal(raw, &v) != nil {
+		return nil
+	}
+	var out []string
+	var walk func(x interface{})
+	walk = func(x interface{}) {
+		switch t := x.(type) {
+		case map[string]interface{}:
+			for k, e := range t {
+				if s, ok := e.(string); ok && k == "$ref" {
+					out = append(out, s)
+				}
+				walk(e)
+			}
+		case []interface{}:
+			for _, e := range t {
+				walk(e)
+			}
+		}
+	}
+	walk(v)
+	sort.Strings(out)
+	return out
 }
 
 type C20FnCase struct {
